@@ -311,3 +311,14 @@ Example del_unacked_not_requested :
   = [(GReq [[98;97;116;99;104]] [[98;97;116;99;104]; s_echo] [], [[98;97;116;99;104]; s_echo]);
      (GReq [s_label] [[98;97;116;99;104]; s_label] [[98;97;116;99;104]], [[98;97;116;99;104]; s_label])].
 Proof. vm_compute. split; reflexivity. Qed.
+
+(* ---- 'sasl' is a wanted capability only on a network with a usable mechanism ---- *)
+(* the configuration as Irc.resetSasl / _wantedCapabilities build it: 'sasl' is in the wanted set only if sasl_next_mechanisms is non-empty *)
+Definition wanted_ok (c : cfg) : Prop := smem s_sasl (c_wanted c) = true -> c_mechs c <> [].
+Theorem sasl_requested_only_with_mechanisms c ms s : wanted_ok c -> C08.PassA.InvA s ->
+  forall caps adv acked, In (GReq caps adv acked) (snd (run_msgs c s ms)) -> In s_sasl caps -> c_mechs c <> [].
+Proof.
+  intros Hw Hi caps adv acked Hin Hs. apply Hw.
+  destruct (C08.PassA.ok_run c ms s Hi) as [_ Ho]. rewrite Forall_forall in Ho. specialize (Ho _ Hin). cbn in Ho.
+  destruct Ho as [Ho _]. apply (Ho s_sasl Hs).
+Qed.
